@@ -4,11 +4,12 @@
    A registration (abstract):
      [verb, path : Seq(path atom), handler, input, query : Seq(query atom), form, ret]
      verb     "GET" | "POST" | "PUT" | "DELETE" | "Static" (a two-argument method that is not a verb)
-     path     atoms: "lit:/x" | "local" | "pkg" | "imported", concatenated with +
+     path     atoms: "lit:/x" | "local" | "pkg" | "imported" | "shadow" (a local constant hiding a package-level
+              constant of the same name and another value), concatenated with +
      handler  "method" | "ptrmethod" | "func" | "importedfunc" | "importedmethod" | "literal"
      input    "none" | "int" | "struct" | "slice" | "ptr"      (c.Bind(&in) / c.Bind(in) with in a pointer)
      query    atoms: "plain:<name>" (c.QueryParam) | "bool:<name>" | "int64:<name>" (typed helpers) | "generic:<name>" (QueryParamInt[IdDossier])
-     form     [values : Seq(name), file : name or "", json : name or ""]
+     form     [values : Seq(name), file : name or "", json : name or "", jsonkind : "" | "struct" | "string"]
      ret      "none" | "json" | "jsonlit" | "pretty" | "blob"
    Types are written as Go type strings with PKG standing for the package of the route file.      *)
 EXTENDS Naturals, Sequences, FiniteSets, TLC
@@ -20,8 +21,9 @@ Verbs == {"GET", "POST", "PUT", "DELETE"}
 ConstLocal == "/local_const"
 ConstPkg == "/pkg_const/"
 ConstImported == "/imported_const/"
+ConstShadow == "/shadow_local"        \* the package-level constant of the same name is "/shadow_pkg"
 
-AtomText(a) == CASE a = "local" -> ConstLocal [] a = "pkg" -> ConstPkg [] a = "imported" -> ConstImported
+AtomText(a) == CASE a = "local" -> ConstLocal [] a = "pkg" -> ConstPkg [] a = "imported" -> ConstImported [] a = "shadow" -> ConstShadow
                  [] OTHER -> SubSeq(a, 5, Len(a))            \* "lit:<text>"
 RECURSIVE FoldPath(_)
 FoldPath(p) == IF p = <<>> THEN "" ELSE AtomText(Head(p)) \o FoldPath(Tail(p))
@@ -56,7 +58,7 @@ ExpectedEndpoint(r, idx) ==
           input |-> InputType(r.input), ret |-> ReturnType(r.ret), blob |-> r.ret = "blob",
           query |-> [i \in 1..Len(r.query) |-> [name |-> QName(r.query[i]), type |-> QType(r.query[i])]],
           values |-> r.form.values, file |-> r.form.file, json |-> r.form.json,
-          jsontype |-> IF r.form.json = "" THEN "" ELSE "PKG.Extra"]
+          jsontype |-> IF r.form.json = "" THEN "" ELSE IF r.form.jsonkind = "string" THEN "string" ELSE "PKG.Extra"]
 
 HasPrefix(s, p) == Len(p) <= Len(s) /\ SubSeq(s, 1, Len(p)) = p
 
